@@ -87,7 +87,6 @@ var escapeTable = map[string]string{
 	"(openapi.dereference).userType":                            "user type missing: Check() of an accepted schema already proved every referenced type exists",
 	"(*openapi.dereference).jSchema":                            "TokenType of an AST node of an accepted schema is one of the seven TokenType constants, all handled",
 	"(openapi.ObjectInfo).allOf":                                "allOf rule value is a reference or an array of references (loader rejects anything else)",
-	"(openapi.ObjectInfo).dereferenceUserTypeProperties":        "allOf sources are objects (CompileAllOf rejects non-object sources with code 704)",
 	"(openapi.SchemaInfo).Type":                                 "TokenType of an AST node of an accepted schema is one of the seven constants, all handled",
 	"(*openapi/internal/jsoac.AllOf).append":                    "allOf rule value is a reference or an array of references",
 	"openapi/internal.RuleToASTNode":                            "items of an `or` rule are strings, references or rule-set objects (loader rejects anything else)",
